@@ -395,6 +395,12 @@ where
 	C: NodeClient + 'a,
 	K: Keychain + 'a,
 {
+	if max_outputs == 0 {
+		return Err(Error::GenericError(
+			"max_outputs must be greater than zero".to_owned(),
+		));
+	}
+
 	// select some spendable coins from the wallet
 	let (max_outputs, mut coins) = select_coins(
 		wallet,
